@@ -526,7 +526,10 @@ class KeyCache:
                 l1_key=l1_seed,
                 l2_key=b"",
             )
-            return self._seed_keys.setdefault(root_key_id, {}).setdefault(target_sd, {}).setdefault(l0, gke)
+            # The root key derived entry covers every L1/L2 index, replace any
+            # existing entry that did not cover the requested one.
+            self._seed_keys.setdefault(root_key_id, {}).setdefault(target_sd, {})[l0] = gke
+            return gke
 
         return None
 
